@@ -4,6 +4,10 @@ import MesaModel.Proofs.VizAltair
 import MesaModel.Proofs.VizInputs
 import MesaModel.Proofs.VizKwargs
 import MesaModel.Proofs.VizSize
+import MesaModel.Proofs.VizCtrl
+import MesaModel.Proofs.VizNet
+import MesaModel.Proofs.VizFrame
+import MesaModel.Proofs.VizPlot
 /-!
 # C20 — visualisation data shows each agent once, where it is, as portrayed
 
@@ -64,32 +68,6 @@ theorem C20_entry_is_portrayal_or_default (df : Defaults) (heap : Heap) (p : Por
       e.linewidths = Dict.get? (portrayed heap p a.id) "linewidths" ∧
       e.ignored = (Dict.keys (portrayed heap p a.id)).filter (fun k => !supportedKeys.contains k) :=
   ⟨_, by simp [entryOf, hl], collectOne_spec df l _⟩
-
-/-- The optional arrays `alpha` / `edgecolors` / `linewidths` (`alphas`, `edgecolorss`, `linewidthss` are
-    `optArray` of the respective field; fix V7): the array is empty exactly when no agent's portrayal specifies
-    the key, and otherwise it has exactly one slot per entry, in the order of the entries, holding the value
-    the portrayal returned or `None` — never a shorter array that the masks of `_scatter` would not fit. -/
-theorem C20_collect_optional_arrays (f : Entry → Option Val) (es : List Entry) :
-    (optArray f es = [] ↔ ∀ e ∈ es, f e = none) ∧
-    (optArray f es ≠ [] → optArray f es = es.map f ∧ (optArray f es).length = es.length) := by
-  have hall : (es.all fun e => (f e).isNone) = true ↔ ∀ e ∈ es, f e = none := by
-    rw [List.all_eq_true]
-    exact ⟨fun h e he => by simpa using h e he, fun h e he => by simp [h e he]⟩
-  unfold optArray
-  split
-  · rename_i h
-    exact ⟨⟨fun _ => hall.mp h, fun _ => rfl⟩, fun hne => absurd rfl hne⟩
-  · rename_i h
-    refine ⟨⟨fun hm => ?_, fun hn => absurd (hall.mpr hn) h⟩, fun _ => ⟨rfl, List.length_map _⟩⟩
-    rw [List.map_eq_nil_iff] at hm
-    subst hm
-    simp at h
-
-/-- The location rule: `agent.pos` if it is set, `agent.cell.coordinate` otherwise. -/
-theorem C20_location_rule (a : Agent) :
-    (∀ p, a.pos = some p → a.location = some p) ∧ (a.pos = none → a.location = a.cell) := by
-  unfold Agent.location
-  exact ⟨fun p hp => by rw [hp], fun hp => by rw [hp]⟩
 
 /-- Witness V3: with the pops done in place, a portrayal handing the same dict `{"color": "red"}` to two
     agents gives the second agent the default colour and leaves the dict empty; the repaired code records
@@ -186,18 +164,50 @@ theorem C20_marker_values (fam : Family) (heap : Heap) (p : Portrayal) (a : Agen
   exact ⟨{ collectOne drawDefaults l (portrayed heap p a.id) with loc := transform fam l }, by simp [markerOf, hl],
     rfl, hs.2.1, hs.2.2.1, hs.2.2.2.1, hs.2.2.2.2.1, hs.2.2.2.2.2.1, hs.2.2.2.2.2.2.1, hs.2.2.2.2.2.2.2.1⟩
 
-/-- `draw_space` succeeds for every reachable space of the twelve classes, every heap and every portrayal
-    — shared dicts and optional keys returned for some agents only included — and what ends up on the Axes
-    (`drawn`) is, as a multiset, exactly one marker per agent currently in the space, the one the property
-    demands (`markerOf`), and nothing else; the calls are non-empty, homogeneous in marker and z-order, and
-    no (marker, z-order) pair is scattered twice. -/
+/-- a space that holds an agent is never one of those `draw_space` refuses before it looks at the agents -/
+theorem drawRaises_none_of_placed {sp : Space} (h : Reachable sp) (hne : sp.placed ≠ []) : drawRaises sp = none := by
+  have hw := reachable_wf h
+  have hnet : sp.fam.cellular = true → sp.cells.isEmpty = false := by
+    intro hcell
+    obtain ⟨a, ha⟩ := List.exists_mem_of_ne_nil _ hne
+    obtain ⟨l, _, hl⟩ := hw.located a ha
+    have hmem := hl hcell
+    cases hc : sp.cells with
+    | nil => rw [hc] at hmem; cases hmem
+    | cons c cs => rfl
+  have hext : sp.fam.isOrthogonal = true ∨ sp.fam.isHex = true ∨ sp.fam.cellular = false → ¬ (sp.w = 0 ∧ sp.h = 0) := by
+    intro hf hz
+    have := extent_pos h hne hf
+    omega
+  unfold drawRaises
+  cases hfam : sp.fam <;> simp only [hfam] at hnet hext ⊢ <;>
+    first
+    | rfl
+    | exact if_neg (hext (by simp [Family.isOrthogonal, Family.isHex, Family.cellular]))
+    | (rw [hnet rfl]; rfl)
+
+/-- `draw_space`, for every reachable space of the twelve classes, every heap and every portrayal — shared dicts and
+    optional keys returned for some agents only included.  It raises before looking at the agents exactly on the spaces
+    `drawRaises` names — a `mesa.space` grid or continuous space of size 0 × 0 (ZeroDivisionError in the default size), a
+    network without nodes (ValueError) —, and such a space holds no agent (outside the property's quantifier: no occupancy
+    state to show).  On every other space — every space that holds an agent among them — it succeeds, and what ends up on
+    the Axes (`drawn`) is, as a multiset, exactly one marker per agent currently in the space, the one the property demands
+    (`markerOf`), and nothing else; the calls are non-empty, homogeneous in marker and z-order, and no (marker, z-order)
+    pair is scattered twice. -/
 theorem C20_draw_one_marker_per_agent {sp : Space} (h : Reachable sp) (heap : Heap) (p : Portrayal) :
-    ∃ gs, drawSpace sp heap p = .ok gs ∧
+    (sp.placed ≠ [] → drawRaises sp = none) ∧
+    (∀ e, drawRaises sp = some e → drawSpace sp heap p = .error e ∧ sp.placed = []) ∧
+    (drawRaises sp = none → ∃ gs, drawSpace sp heap p = .ok gs ∧
       (gs.flatMap (·.drawn)).Perm (sp.placed.filterMap (markerOf sp.fam heap p)) ∧
       (∀ a ∈ sp.placed, (markerOf sp.fam heap p a).isSome) ∧
       (gs.flatMap (·.drawn)).length = sp.placed.length ∧
       (∀ g ∈ gs, g.drawn = g.members ∧ g.members ≠ [] ∧ ∀ e ∈ g.members, e.marker = g.marker ∧ e.zorder = g.zorder) ∧
-      (gs.map fun g => (g.marker, g.zorder)).Nodup := by
+      (gs.map fun g => (g.marker, g.zorder)).Nodup) := by
+  refine ⟨drawRaises_none_of_placed h, fun e he => ⟨by unfold drawSpace; rw [he], ?_⟩, fun hr => ?_⟩
+  · apply Classical.byContradiction
+    intro hne
+    rw [drawRaises_none_of_placed h hne] at he
+    cases he
   have w := reachable_wf h
   have hs := C20_scatter_partition (drawEntries sp heap p)
   have hd : ∀ g ∈ scatter (drawEntries sp heap p), g.drawn = g.members :=
@@ -206,7 +216,7 @@ theorem C20_draw_one_marker_per_agent {sp : Space} (h : Reachable sp) (heap : He
     flatMap_congr' hd
   have hp : ((scatter (drawEntries sp heap p)).flatMap (·.drawn)).Perm (sp.placed.filterMap (markerOf sp.fam heap p)) := by
     rw [hfm]; exact hs.1.trans (drawEntries_perm w heap p)
-  exact ⟨_, drawSpace_eq w heap p, hp, markerOf_isSome w heap p,
+  exact ⟨_, drawSpace_eq w hr heap p, hp, markerOf_isSome w heap p,
     hp.length_eq.trans (filterMap_length_full.mpr (markerOf_isSome w heap p)),
     fun g hg => ⟨hd g hg, hs.2.1 g hg⟩, hs.2.2⟩
 
@@ -215,7 +225,11 @@ theorem C20_draw_ok_one_marker_per_agent {sp : Space} (h : Reachable sp) (heap :
     {gs : List Group} (hd : drawSpace sp heap p = .ok gs) :
     (gs.flatMap (·.drawn)).Perm (sp.placed.filterMap (markerOf sp.fam heap p)) ∧
     (gs.flatMap (·.drawn)).length = sp.placed.length := by
-  obtain ⟨gs', h1, h2, _, h4, _⟩ := C20_draw_one_marker_per_agent h heap p
+  have hr : drawRaises sp = none := by
+    cases hc : drawRaises sp with
+    | none => rfl
+    | some e => unfold drawSpace at hd; rw [hc] at hd; cases hd
+  obtain ⟨gs', h1, h2, _, h4, _⟩ := (C20_draw_one_marker_per_agent h heap p).2.2 hr
   rw [hd] at h1
   injection h1 with h1
   subst h1
@@ -248,16 +262,17 @@ theorem C20_V7_some_agents_optional_drawn :
   intro heap p
   refine ⟨by decide, by decide, by decide, by decide⟩
 
-/-- V5: a space without agents is drawn without markers (and without an exception), by both back ends. -/
+/-- V5: a space without agents (one that `draw_space` does not refuse for its size, see above) is drawn without markers
+    and without an exception; Altair gets no rows. -/
 theorem C20_empty_space_draws_nothing {sp : Space} (h : Reachable sp) (heap : Heap) (p : Portrayal)
     (he : sp.placed = []) :
-    drawSpace sp heap p = .ok [] ∧ (altairSupported sp.fam = true → altairRows sp heap p = .ok []) := by
+    (drawRaises sp = none → drawSpace sp heap p = .ok []) ∧ (altairSupported sp.fam = true → altairRows sp heap p = .ok []) := by
   have w := reachable_wf h
   have hsa : spaceAgents sp = [] := by
     have := (spaceAgents_perm w).length_eq
     rw [he] at this
     exact List.length_eq_zero_iff.mp this
-  refine ⟨by rw [drawSpace_eq w, drawEntries, hsa]; rfl, fun hs => ?_⟩
+  refine ⟨fun hr => by rw [drawSpace_eq w hr, drawEntries, hsa]; rfl, fun hs => ?_⟩
   unfold altairRows
   rw [hs, hsa]
   rfl
@@ -275,21 +290,55 @@ theorem C20_distinct_locations_distinct_positions (fam : Family) {a b : Loc}
 
 /-! ## the default size -/
 
+/-- The default size and `draw_space`: the spaces `draw_space` refuses for their size (`drawRaises`) are exactly those
+    whose default size `(180 / extent)²` is undefined — for every space, reachable or not. -/
+theorem defaultSize_undefined_iff (sp : Space) : defaultSize sp = .undefined ↔ drawRaises sp ≠ none := by
+  have hsz : ∀ e : Int, sizeOfExtent e = .undefined ↔ ¬ 0 < e := by
+    intro e; unfold sizeOfExtent; split <;> simp_all
+  have hgrid : sizeOfExtent (max (sp.w : Int) (sp.h : Int)) = .undefined ↔ (sp.w = 0 ∧ sp.h = 0) := by
+    rw [hsz]; omega
+  have hnet : (if sp.cells.length = 0 then SizeDefault.undefined else if sp.cells.length = 1 then sizeOfExtent 1 else .layout) =
+      .undefined ↔ sp.cells.isEmpty = true := by
+    cases hc : sp.cells with
+    | nil => simp
+    | cons c cs =>
+      cases cs with
+      | nil => simp [sizeOfExtent]
+      | cons d ds => simp
+  unfold defaultSize drawRaises
+  cases hfam : sp.fam <;> simp only
+  case vor =>
+    have hx := spread_nonneg (sp.cells.map (·.x))
+    have hy := spread_nonneg (sp.cells.map (·.y))
+    constructor
+    · intro hu
+      rw [hsz] at hu
+      exfalso; apply hu
+      split <;> omega
+    · intro hn; exact absurd rfl hn
+  case netgrid => rw [hnet]; split <;> simp_all
+  case net => rw [hnet]; split <;> simp_all
+  all_goals (rw [hgrid]; split <;> simp_all)
+
 /-- The size of a marker whose portrayal names none (`s_default`) is a positive finite number in every reachable
     space that holds an agent: `(180 / max(width, height))²` on grids and continuous spaces (the extent is positive
-    there); `180²` on a network with a single node (fix V12: the layout has no extent — it was (180/0)² = inf);
-    `(180 / side)²` with the positive larger side of the centroids' bounding box on Voronoi grids with at least two
-    centroids.  (Networks with several nodes: by networkx's layout, not modelled.) -/
+    there); `180²` on a network with a single node (fix V12: the layout has no extent — it was (180/0)² = inf) and on a
+    Voronoi grid with a single centroid (fix V15: it was a ZeroDivisionError); `(180 / side)²` with the positive larger
+    side of the centroids' bounding box on Voronoi grids with more centroids.  (Networks with several nodes: by
+    networkx's layout, not modelled.)  In particular `draw_space` does not refuse such a space for its size. -/
 theorem C20_default_size_defined {sp : Space} (h : Reachable sp) (hne : sp.placed ≠ []) :
+    defaultSize sp ≠ .undefined ∧
     (sp.fam.isOrthogonal = true ∨ sp.fam.isHex = true ∨ sp.fam.cellular = false →
       0 < max (sp.w : Int) (sp.h : Int) ∧
       defaultSize sp = .exact ⟨32400, (max (sp.w : Int) (sp.h : Int) * max (sp.w : Int) (sp.h : Int)).toNat⟩) ∧
     (sp.fam = .net ∨ sp.fam = .netgrid →
       sp.cells.length ≠ 0 ∧ (sp.cells.length = 1 → defaultSize sp = .exact ⟨32400, 1⟩) ∧
       (2 ≤ sp.cells.length → defaultSize sp = .layout)) ∧
-    (sp.fam = .vor → 2 ≤ sp.cells.length → ∃ f, defaultSize sp = .exact f ∧ f.num = 32400 ∧ 0 < f.den) := by
+    (sp.fam = .vor → (∃ f, defaultSize sp = .exact f ∧ f.num = 32400 ∧ 0 < f.den) ∧
+      (sp.cells.length = 1 → defaultSize sp = .exact ⟨32400, 1⟩)) := by
   have hw := reachable_wf h
-  refine ⟨fun hf => ?_, fun hf => ?_, fun hf hlen => ?_⟩
+  refine ⟨fun hu => ?_, fun hf => ?_, fun hf => ?_, fun hf => ⟨?_, fun h1 => ?_⟩⟩
+  · exact (defaultSize_undefined_iff sp).mp hu (drawRaises_none_of_placed h hne)
   · have hpos := extent_pos h hne hf
     refine ⟨hpos, ?_⟩
     unfold defaultSize sizeOfExtent
@@ -309,34 +358,50 @@ theorem C20_default_size_defined {sp : Space} (h : Reachable sp) (hne : sp.place
     · unfold defaultSize
       have h1 : sp.cells.length ≠ 1 := by omega
       rcases hf with hf | hf <;> simp only [hf, if_neg hlen, if_neg h1]
-  · have hpos := bbox_pos hw.cellsNodup hlen
-    unfold defaultSize sizeOfExtent
-    simp only [hf, if_pos hpos]
+  · have hx := spread_nonneg (sp.cells.map (·.x))
+    have hy := spread_nonneg (sp.cells.map (·.y))
+    unfold defaultSize
+    simp only [hf]
+    have he : 0 ≤ max (spread (sp.cells.map (·.x))) (spread (sp.cells.map (·.y))) := by omega
+    generalize max (spread (sp.cells.map (·.x))) (spread (sp.cells.map (·.y))) = e at *
+    have hpos : 0 < (if e = 0 then 1 else e) := by split <;> omega
+    unfold sizeOfExtent
+    rw [if_pos hpos]
     refine ⟨_, rfl, rfl, ?_⟩
-    have : 0 < max (spread (sp.cells.map (·.x))) (spread (sp.cells.map (·.y))) *
-        max (spread (sp.cells.map (·.x))) (spread (sp.cells.map (·.y))) := Int.mul_pos hpos hpos
+    have := Int.mul_pos hpos hpos
     simp only
     omega
+  · match hc : sp.cells, h1 with
+    | [c], _ =>
+      unfold defaultSize
+      simp only [hf, hc]
+      have : spread [c.x] = 0 ∧ spread [c.y] = 0 := by simp [spread, minOf, maxOf]
+      simp [this.1, this.2, sizeOfExtent]
 
 /-! ## plotting keyword arguments -/
 
 /-- `draw_space(space, agent_portrayal, ax=ax, **kw)` with plotting keywords among `alpha` / `edgecolors` /
-    `linewidths`.  The keywords reach the scatter calls of grids and networks only (`kw'`; continuous and Voronoi
-    spaces drop them).  The call is refused exactly when the space holds an agent and some keyword is also
-    specified by some agent's portrayal (`clashes`; the first one in the order edgecolors, linewidths, alpha is
-    named); otherwise the scatter calls are those of `draw_space` without keywords — so
+    `linewidths`, on a space `draw_space` does not refuse for its size (there it raises the same error with keywords as
+    without).  The keywords reach the scatter calls of grids and networks only (`kw'`; continuous and Voronoi spaces drop
+    them).  The call is refused if and only if the space holds an agent and some keyword is also specified by some agent's
+    portrayal (`clashes`) — both directions —, and the keyword named in the error is the first one that clashes in the
+    order edgecolors, linewidths, alpha; otherwise the scatter calls are those of `draw_space` without keywords — so
     `C20_draw_one_marker_per_agent` applies to them — and every one is handed `kw'` in addition. -/
-theorem C20_draw_kwargs {sp : Space} (h : Reachable sp) (heap : Heap) (p : Portrayal) (kw : List (Key × Val)) :
+theorem C20_draw_kwargs {sp : Space} (h : Reachable sp) (hr : drawRaises sp = none) (heap : Heap) (p : Portrayal)
+    (kw : List (Key × Val)) :
     ∃ gs kw', drawSpace sp heap p = .ok gs ∧ kw' = (if forwardsKwargs sp.fam then kw else []) ∧
       ((sp.placed = [] ∨ ∀ kf ∈ optKeys, ¬ clashes (drawEntries sp heap p) kw' kf) →
         drawSpaceKw sp heap p kw = .ok ⟨gs, kw'⟩) ∧
+      (sp.placed ≠ [] → (∃ kf ∈ optKeys, clashes (drawEntries sp heap p) kw' kf) →
+        ∃ k, drawSpaceKw sp heap p kw = .error (.conflict k)) ∧
       (∀ k, drawSpaceKw sp heap p kw = .error (.conflict k) →
-        sp.placed ≠ [] ∧ ∃ kf ∈ optKeys, kf.1 = k ∧ clashes (drawEntries sp heap p) kw' kf) ∧
-      drawSpaceKw sp heap p kw ≠ .error .attribute := by
+        sp.placed ≠ [] ∧ ∃ kf before after, optKeys = before ++ kf :: after ∧ kf.1 = k ∧
+          clashes (drawEntries sp heap p) kw' kf ∧ ∀ kf' ∈ before, ¬ clashes (drawEntries sp heap p) kw' kf') ∧
+      drawSpaceKw sp heap p kw ≠ .error .attribute ∧ (∀ e, drawSpaceKw sp heap p kw ≠ .error (.raised e)) := by
   have w := reachable_wf h
   have hlen := drawEntries_length w heap p
-  refine ⟨_, _, drawSpace_eq w heap p, rfl, fun hc => ?_, fun k hk => ?_, ?_⟩
-  · rw [drawSpaceKw_eq w]
+  refine ⟨_, _, drawSpace_eq w hr heap p, rfl, fun hc => ?_, fun hne hcl => ?_, fun k hk => ?_, ?_, fun e => ?_⟩
+  · rw [drawSpaceKw_eq w hr]
     unfold scatterKw
     rcases hc with he | hc
     · have : drawEntries sp heap p = [] := List.length_eq_zero_iff.mp (by rw [hlen, he]; rfl)
@@ -346,7 +411,20 @@ theorem C20_draw_kwargs {sp : Space} (h : Reachable sp) (heap : Heap) (p : Portr
         have : drawEntries sp heap p = [] := by simpa using he
         rw [this]; rfl
       · rw [(kwConflict_none_iff _ _).mpr hc]
-  · rw [drawSpaceKw_eq w] at hk
+  · rw [drawSpaceKw_eq w hr]
+    unfold scatterKw
+    have hne' : (drawEntries sp heap p).isEmpty = false := by
+      cases hd : drawEntries sp heap p with
+      | nil => rw [hd] at hlen; exact absurd (List.length_eq_zero_iff.mp hlen.symm) hne
+      | cons e es => rfl
+    rw [hne']
+    simp only [Bool.false_eq_true, if_false]
+    cases hc : kwConflict (drawEntries sp heap p) (if forwardsKwargs sp.fam then kw else []) with
+    | some k => exact ⟨k, rfl⟩
+    | none =>
+      obtain ⟨kf, hm, hcl⟩ := hcl
+      exact absurd hcl ((kwConflict_none_iff _ _).mp hc kf hm)
+  · rw [drawSpaceKw_eq w hr] at hk
     unfold scatterKw at hk
     split at hk
     · cases hk
@@ -358,35 +436,212 @@ theorem C20_draw_kwargs {sp : Space} (h : Reachable sp) (heap : Heap) (p : Portr
         injection hk with hk
         injection hk with hk
         subst hk
-        refine ⟨fun hp => ?_, kwConflict_some hc⟩
+        refine ⟨fun hp => ?_, kwConflict_first hc⟩
         have : (drawEntries sp heap p).length = 0 := by rw [hlen, hp]; rfl
         exact he (by simpa using List.length_eq_zero_iff.mp this)
-  · rw [drawSpaceKw_eq w]
+  · rw [drawSpaceKw_eq w hr]
+    unfold scatterKw
+    split
+    · intro hx; cases hx
+    · cases kwConflict (drawEntries sp heap p) (if forwardsKwargs sp.fam then kw else []) <;> intro hx <;> cases hx
+  · rw [drawSpaceKw_eq w hr]
     unfold scatterKw
     split
     · intro hx; cases hx
     · cases kwConflict (drawEntries sp heap p) (if forwardsKwargs sp.fam then kw else []) <;> intro hx <;> cases hx
 
-/-- What the keywords do to the markers (matplotlib's side, `applyKw`): a keyword given sets that property of every
-    marker of every call, the other properties stay as the portrayals gave them; without keywords nothing changes. -/
-theorem C20_draw_kwargs_apply_to_every_marker (d : KwDrawing) :
-    d.drawn.flatten = (d.groups.flatMap (·.drawn)).map (applyKw d.kw) ∧
-    (∀ e, (applyKw d.kw e).loc = e.loc ∧ (applyKw d.kw e).s = e.s ∧ (applyKw d.kw e).c = e.c ∧
-      (applyKw d.kw e).marker = e.marker ∧ (applyKw d.kw e).zorder = e.zorder) ∧
-    (∀ e v, d.kw.lookup "alpha" = some v → (applyKw d.kw e).alpha = some v) ∧
-    (∀ e, d.kw.lookup "alpha" = none → (applyKw d.kw e).alpha = e.alpha) ∧
-    (d.kw = [] → d.drawn = d.groups.map (·.drawn)) := by
-  refine ⟨?_, fun e => ⟨rfl, rfl, rfl, rfl, rfl⟩, fun e v hv => by simp [applyKw, hv], fun e hv => by simp [applyKw, hv],
-    fun hk => ?_⟩
-  · unfold KwDrawing.drawn
-    induction d.groups with
-    | nil => rfl
-    | cons g gs ih => simp [List.flatMap_cons, ih]
-  · unfold KwDrawing.drawn
-    rw [hk]
-    apply List.map_congr_left
-    intro g _
-    exact List.map_id'' (fun e => applyKw_nil e) _
+/-! ## the part of the plane the picture shows -/
+
+/-- Every agent of a reachable space is drawn inside the axis limits `draw_space` sets.  Grids, hex grids and continuous
+    spaces: strictly inside — half a cell, the hexagons' padding, a twentieth of the space around it.  Voronoi grids: inside
+    or on the limits (the centroids' bounding box plus a twentieth of its sides), strictly inside in a direction in which
+    the centroids have an extent. -/
+theorem C20_markers_inside_the_limits {sp : Space} (h : Reachable sp) {a : Agent} (ha : a ∈ sp.placed) :
+    (sp.fam.isOrthogonal = true ∨ sp.fam.isHex = true ∨ sp.fam.cellular = false →
+      ∃ l f, a.location = some l ∧ frameOf sp = some f ∧ f.shows (transform sp.fam l)) ∧
+    (sp.fam = .vor → ∃ l f, a.location = some l ∧ frameOf sp = some f ∧ f.touches (transform sp.fam l) ∧
+      (0 < spread (sp.cells.map (·.x)) → f.xlo < f.den * l.x ∧ f.den * l.x < f.xhi) ∧
+      (0 < spread (sp.cells.map (·.y)) → f.ylo < f.den * l.y ∧ f.den * l.y < f.yhi)) := by
+  refine ⟨fun hf => ?_, fun hf => ?_⟩
+  · obtain ⟨l, hloc, h1, h2, h3, h4⟩ := located_in_bounds h ha hf
+    have hm0 := Int.emod_nonneg (l.y - 1) (by decide : (2 : Int) ≠ 0)
+    have hm1 := Int.emod_lt_of_pos (l.y - 1) (by decide : (0 : Int) < 2)
+    have hh : (0 : Int) ≤ ((sp.h % 2 : Nat) : Int) := Int.natCast_nonneg _
+    refine ⟨l, ?_⟩
+    rcases hf with hf | hf | hf <;> cases hfam : sp.fam <;>
+      simp [hfam, Family.isOrthogonal, Family.isHex, Family.cellular] at hf <;>
+      (unfold frameOf; simp only [hfam]; refine ⟨_, hloc, rfl, ?_⟩;
+       simp only [Frame.shows, transform, Family.isHex]; simp; omega)
+  · have hw := reachable_wf h
+    obtain ⟨l, hloc, hl⟩ := hw.located a ha
+    have hmem := hl (by rw [hf]; rfl)
+    have hx : l.x ∈ sp.cells.map (·.x) := List.mem_map.mpr ⟨l, hmem, rfl⟩
+    have hy : l.y ∈ sp.cells.map (·.y) := List.mem_map.mpr ⟨l, hmem, rfl⟩
+    cases h1 : minOf (sp.cells.map (·.x)) with
+    | none => cases hc : sp.cells.map (·.x) <;> simp [hc, minOf] at h1 hx
+    | some x0 =>
+    cases h2 : maxOf (sp.cells.map (·.x)) with
+    | none => cases hc : sp.cells.map (·.x) <;> simp [hc, maxOf] at h2 hx
+    | some x1 =>
+    cases h3 : minOf (sp.cells.map (·.y)) with
+    | none => cases hc : sp.cells.map (·.y) <;> simp [hc, minOf] at h3 hy
+    | some y0 =>
+    cases h4 : maxOf (sp.cells.map (·.y)) with
+    | none => cases hc : sp.cells.map (·.y) <;> simp [hc, maxOf] at h4 hy
+    | some y1 =>
+    have a1 := (minOf_spec h1).2 l.x hx
+    have a2 := (maxOf_spec h2).2 l.x hx
+    have a3 := (minOf_spec h3).2 l.y hy
+    have a4 := (maxOf_spec h4).2 l.y hy
+    refine ⟨l, ⟨20, 20 * x0 - (x1 - x0), 20 * x1 + (x1 - x0), 20 * y0 - (y1 - y0), 20 * y1 + (y1 - y0)⟩, hloc, ?_, ?_, ?_, ?_⟩
+    · unfold frameOf; simp only [hf, h1, h2, h3, h4]
+    · simp only [Frame.touches, transform, Family.isHex, hf]
+      simp
+      omega
+    · intro hsp
+      simp only [spread, h1, h2] at hsp
+      simp only
+      omega
+    · intro hsp
+      simp only [spread, h3, h4] at hsp
+      simp only
+      omega
+
+/-! ## networks drawn with a layout given by the caller -/
+
+/-- `draw_network` with `layout_alg` a callable (the layout `ly`: node label ↦ position, not empty), for every reachable
+    space, heap and portrayal.  The only way it fails is a KeyError: exactly when some agent stands on a node the layout
+    has no entry for, and the error names the node of the first such agent in `space.agents` order.  Otherwise what ends
+    up on the Axes is, as a multiset, one marker per agent in the space — its entry (`C20_entry_is_portrayal_or_default`)
+    moved to the position the layout registers under the *label* of the agent's node (`placeBy`; fix V6: not under the
+    node's rank in the graph) —, and the default marker size is `(180 / extent)²` of the layout's bounding box, a positive
+    finite number also for a layout without extent (fix V12). -/
+theorem C20_network_markers_at_layout_positions {sp : Space} (h : Reachable sp) (heap : Heap) (p : Portrayal)
+    (ly : Layout) (hne : ly ≠ []) :
+    (∀ n, drawNetwork sp heap p ly = .error (.key n) ↔
+      ∃ before e after, (spaceAgents sp).filterMap (entryOf drawDefaults heap p) = before ++ e :: after ∧
+        e.loc.x = n ∧ ly.lookup n = none ∧ ∀ b ∈ before, (ly.lookup b.loc.x).isSome) ∧
+    ((∃ d, drawNetwork sp heap p ly = .ok d) ∨ ∃ n, drawNetwork sp heap p ly = .error (.key n)) ∧
+    (∀ d, drawNetwork sp heap p ly = .ok d →
+      d.size = layoutSize ly ∧ (∃ f, d.size = .exact f ∧ f.num = 32400 ∧ 0 < f.den) ∧
+      ((d.groups.flatMap (·.drawn)).map some).Perm ((sp.placed.filterMap (entryOf drawDefaults heap p)).map (placeBy ly)) ∧
+      (d.groups.flatMap (·.drawn)).length = sp.placed.length) := by
+  have w := reachable_wf h
+  have hcol := collect_eq_filterMap drawDefaults heap p _ (spaceAgents_located w)
+  have hemp : ly.isEmpty = false := by cases ly <;> simp_all
+  have hdn : drawNetwork sp heap p ly =
+      match relocate ly ((spaceAgents sp).filterMap (entryOf drawDefaults heap p)) with
+      | .error err => .error err
+      | .ok es' => .ok ⟨scatter es', layoutSize ly⟩ := by
+    unfold drawNetwork
+    rw [hemp, hcol]
+    rfl
+  generalize hes : (spaceAgents sp).filterMap (entryOf drawDefaults heap p) = es at *
+  refine ⟨fun n => ?_, ?_, fun d hd => ?_⟩
+  · rw [hdn, ← relocate_error_iff ly es n]
+    cases relocate ly es with
+    | ok es' => simp
+    | error err =>
+      simp only
+      constructor <;> (intro hx; injection hx with hx; rw [hx])
+  · rw [hdn]
+    have hno := relocate_not_other ly es
+    cases hr : relocate ly es with
+    | ok es' => exact Or.inl ⟨_, rfl⟩
+    | error err =>
+      rw [hr] at hno
+      cases err with
+      | key n => exact Or.inr ⟨n, rfl⟩
+      | value => exact absurd rfl hno.1
+      | noPosition => exact absurd rfl hno.2
+  · rw [hdn] at hd
+    cases hr : relocate ly es with
+    | error err => rw [hr] at hd; cases hd
+    | ok es' =>
+      rw [hr] at hd
+      injection hd with hd
+      subst hd
+      have hs := C20_scatter_partition es'
+      have hdr : ∀ g ∈ scatter es', g.drawn = g.members := fun g hg => (C20_scatter_optional_args _ g hg).2
+      have hfm : (scatter es').flatMap (·.drawn) = (scatter es').flatMap (·.members) := flatMap_congr' hdr
+      have hmap := (relocate_ok_iff ly es es').mp hr
+      have hperm : es.Perm (sp.placed.filterMap (entryOf drawDefaults heap p)) := by
+        rw [← hes]; exact (spaceAgents_perm w).filterMap _
+      have hlen : es.length = sp.placed.length := by
+        rw [← hes]
+        have hsome : ∀ a ∈ spaceAgents sp, (entryOf drawDefaults heap p a).isSome := by
+          intro a ha; obtain ⟨l, e⟩ := spaceAgents_located w a ha; simp [entryOf, e]
+        exact (filterMap_length_full.mpr hsome).trans (spaceAgents_perm w).length_eq
+      refine ⟨rfl, ?_, ?_, ?_⟩
+      · have hx := spread_nonneg (ly.map (·.2.x))
+        have hy := spread_nonneg (ly.map (·.2.y))
+        simp only [layoutSize]
+        have he : 0 ≤ max (spread (ly.map (·.2.x))) (spread (ly.map (·.2.y))) := by omega
+        generalize max (spread (ly.map (·.2.x))) (spread (ly.map (·.2.y))) = e at *
+        have hpos : 0 < (if e = 0 then 1 else e) := by split <;> omega
+        unfold sizeOfExtent
+        rw [if_pos hpos]
+        refine ⟨_, rfl, rfl, ?_⟩
+        have := Int.mul_pos hpos hpos
+        simp only
+        omega
+      · simp only
+        rw [hfm]
+        refine ((hs.1.map some).trans ?_)
+        rw [← hmap]
+        exact hperm.map _
+      · simp only
+        rw [hfm, hs.1.length_eq]
+        have : es'.length = es.length := by
+          have := congrArg List.length hmap
+          simpa using this.symm
+        omega
+
+/-! ## measure plots -/
+
+/-- `PlotMatplotlib` for a measure given as a string, a dict measure ↦ colour, a list or a tuple, over every table of
+    collected model variables.  It fails exactly when a requested measure is not in the table — a KeyError naming the first
+    such measure in the order of the request —, and otherwise draws exactly one line per requested measure, in that order,
+    each carrying the values collected for *its* measure, labelled with the measure (no label for a single string) and
+    coloured as the dict says (the colour cycle otherwise); a legend exactly for dict / list / tuple requests, the y label
+    exactly for a string; anything else plots nothing. -/
+theorem C20_plot_one_line_per_requested_measure (t : Table) (spec : MeasureSpec) :
+    (∀ m, plotMeasure t spec = .error m ↔
+      ∃ before r after, spec.requests = before ++ r :: after ∧ r.1 = m ∧ t.lookup m = none ∧
+        ∀ b ∈ before, (t.lookup b.1).isSome) ∧
+    (∀ pl, plotMeasure t spec = .ok pl →
+      spec.requests.map (lineOf t) = pl.lines.map some ∧ pl.lines.length = spec.requests.length ∧
+      (pl.legend = true ↔ (∃ ms, spec = .dict ms) ∨ (∃ ms, spec = .list ms) ∨ (∃ ms, spec = .tuple ms)) ∧
+      (∀ m, pl.ylabel = some m ↔ spec = .str m)) ∧
+    ((∀ r ∈ spec.requests, (t.lookup r.1).isSome) → ∃ pl, plotMeasure t spec = .ok pl) := by
+  refine ⟨fun m => ?_, fun pl h => ?_, fun hall => ?_⟩
+  · rw [← plotLines_error_iff]
+    unfold plotMeasure
+    cases plotLines t spec.requests with
+    | ok ls => simp
+    | error e => simp
+  · unfold plotMeasure at h
+    cases hr : plotLines t spec.requests with
+    | error e => rw [hr] at h; cases h
+    | ok ls =>
+      rw [hr] at h
+      injection h with h
+      subst h
+      have hm := (plotLines_ok_iff t _ ls).mp hr
+      refine ⟨hm, ?_, ?_, ?_⟩
+      · have := congrArg List.length hm
+        simpa using this.symm
+      · cases spec <;> simp
+      · intro m
+        cases spec <;> simp
+  · unfold plotMeasure
+    cases hr : plotLines t spec.requests with
+    | ok ls => exact ⟨_, rfl⟩
+    | error e =>
+      obtain ⟨before, r, after, hsplit, hx, hnone, _⟩ := (plotLines_error_iff t _ e).mp hr
+      have := hall r (by rw [hsplit]; simp)
+      rw [hx, hnone] at this
+      cases this
 
 /-! ## Altair -/
 
@@ -421,10 +676,13 @@ theorem C20_altair_row_values (heap : Heap) (p : Portrayal) (a : Agent) (l : Loc
     the row of the *first* agent of `space.agents` — a colour / size channel iff that agent's portrayal has the key,
     tooltips for its other keys (all but colour, size, x, y) in the portrayal's order — and of `{}` for a space without
     agents; the marks get the default size `30000 / min(width, height)²` exactly when sizes do not come from the rows;
-    x and y are ordinal (nominal for `mesa.space.ContinuousSpace`). -/
+    x and y are ordinal (nominal for `mesa.space.ContinuousSpace`).  On a supported space of width or height 0 (only
+    `mesa.space` classes can be built that small; it holds no agent) that default size is a ZeroDivisionError. -/
 theorem C20_altair_chart_encoding {sp : Space} (h : Reachable sp) (heap : Heap) (p : Portrayal)
     (hs : altairSupported sp.fam = true) :
-    ∃ c, altairChart sp heap p = .ok c ∧
+    (sp.placed ≠ [] → min sp.w sp.h ≠ 0) ∧
+    (min sp.w sp.h = 0 → altairChart sp heap p = .error .zeroDivision) ∧
+    (min sp.w sp.h ≠ 0 → ∃ c, altairChart sp heap p = .ok c ∧
       c.rows = (spaceAgents sp).filterMap (rowOf heap p) ∧
       (spaceAgents sp = [] → c.color = false ∧ c.size = false ∧ c.tooltip = []) ∧
       (∀ a rest, spaceAgents sp = a :: rest →
@@ -433,9 +691,18 @@ theorem C20_altair_chart_encoding {sp : Space} (h : Reachable sp) (heap : Heap) 
         c.tooltip = (Dict.keys (portrayed heap p a.id)).filter fun k => !invalidTooltips.contains k) ∧
       (c.markSize = none ↔ c.size = true) ∧
       (c.size = false → c.markSize = some ⟨30000, (min sp.w sp.h) * (min sp.w sp.h)⟩) ∧
-      c.xyType = (if sp.fam = .cs then "nominal" else "ordinal") := by
+      c.xyType = (if sp.fam = .cs then "nominal" else "ordinal")) := by
   have hr := ((C20_altair_one_row_per_agent h heap p).1 hs).1
-  refine ⟨_, altairChart_eq hr, rfl, fun he => ?_, fun a rest he => ?_, ?_, ?_, rfl⟩
+  have hposp : sp.placed ≠ [] → min sp.w sp.h ≠ 0 := min_pos_of_placed h hs
+  refine ⟨hposp, fun hz => ?_, fun hpos => ?_⟩
+  · have hpl : sp.placed = [] := Classical.byContradiction fun hne => hposp hne hz
+    have hsa : spaceAgents sp = [] := by
+      have := (spaceAgents_perm (reachable_wf h)).length_eq
+      rw [hpl] at this
+      exact List.length_eq_zero_iff.mp this
+    rw [hsa] at hr
+    exact altairChart_zero hr hz
+  refine ⟨_, altairChart_eq hr hpos, rfl, fun he => ?_, fun a rest he => ?_, ?_, ?_, rfl⟩
   · simp only [he, List.filterMap_nil]
     exact ⟨rfl, rfl, rfl⟩
   · obtain ⟨l, hl⟩ := spaceAgents_located (reachable_wf h) a (by rw [he]; exact List.mem_cons_self)
@@ -449,16 +716,22 @@ theorem C20_altair_chart_encoding {sp : Space} (h : Reachable sp) (heap : Heap) 
     rw [hsz]
     rfl
 
-/-- A portrayal that gives every agent a colour (a size) is encoded with it, one that gives none is not — whatever
-    the order of the agents.  (A key returned for some agents only is encoded iff the first agent of `space.agents`
-    has it: seen, not counted — the rows carry the values either way.) -/
-theorem C20_altair_uniform_portrayal_encoded {sp : Space} (h : Reachable sp) (heap : Heap) (p : Portrayal)
+/-- PARTIAL (open finding A1).  The full statement — "an agent whose portrayal returns a colour (a size) is drawn with
+    it", i.e. the chart has the channel as soon as some agent's row has the key — is false for `_draw_grid`, which reads
+    the encoding off the first row only (`C20_A1_first_row_encoding_refuted` below).  What holds: a portrayal that gives
+    every agent a colour (a size) is encoded with it, one that gives none is not — whatever the order of the agents; and
+    the rows (`C20_altair_row_values`) carry every agent's values in all cases. -/
+theorem C20_altair_portrayal_encoded_partial {sp : Space} (h : Reachable sp) (heap : Heap) (p : Portrayal)
     (hs : altairSupported sp.fam = true) {c : AltairChart} (hc : altairChart sp heap p = .ok c) :
     (sp.placed ≠ [] → (∀ a ∈ sp.placed, Dict.hasKey (portrayed heap p a.id) "color" = true) → c.color = true) ∧
     ((∀ a ∈ sp.placed, Dict.hasKey (portrayed heap p a.id) "color" = false) → c.color = false) ∧
     (sp.placed ≠ [] → (∀ a ∈ sp.placed, Dict.hasKey (portrayed heap p a.id) "size" = true) → c.size = true) ∧
     ((∀ a ∈ sp.placed, Dict.hasKey (portrayed heap p a.id) "size" = false) → c.size = false) := by
-  obtain ⟨c', hc', _, hnil, hcons, _⟩ := C20_altair_chart_encoding h heap p hs
+  have hpos : min sp.w sp.h ≠ 0 := by
+    intro hz
+    rw [(C20_altair_chart_encoding h heap p hs).2.1 hz] at hc
+    cases hc
+  obtain ⟨c', hc', _, hnil, hcons, _⟩ := (C20_altair_chart_encoding h heap p hs).2.2 hpos
   rw [hc] at hc'
   injection hc' with hc'
   subst hc'
@@ -479,6 +752,25 @@ theorem C20_altair_uniform_portrayal_encoded {sp : Space} (h : Reachable sp) (he
     exact ⟨fun _ hall => by rw [h1]; exact hall a ha, fun hall => by rw [h1]; exact hall a ha,
       fun _ hall => by rw [h2]; exact hall a ha, fun hall => by rw [h2]; exact hall a ha⟩
 
+/-- Open finding A1, the refutation of the full statement: on the hex grid `a1Space` agent 2 — the first of `space.agents` —
+    is portrayed by a z-order only and agents 1 and 3 by colour red and size 5: their rows carry colour and size, the
+    chart has neither channel (all marks get the default colour and the default size 30000 / 2²).  The other way round
+    (`a1Portrayal'`: only the first agent returns a size) the chart has a quantitative size channel that two of the
+    three rows have no value for. -/
+def a1Space : Space :=
+  { fam := .hexm, w := 2, h := 3, cells := gridCells 2 3,
+    placed := [mkAgent .hexm 1 ⟨1, 2⟩, mkAgent .hexm 2 ⟨0, 1⟩, mkAgent .hexm 3 ⟨1, 2⟩] }
+def a1Heap : Heap := [[("color", "red"), ("size", "5")], [("zorder", "2")]]
+def a1Portrayal : Portrayal := fun a => if a = 2 then some 1 else some 0
+def a1Portrayal' : Portrayal := fun a => if a = 2 then some 0 else some 1
+
+theorem C20_A1_first_row_encoding_refuted :
+    (∃ c, altairChart a1Space a1Heap a1Portrayal = .ok c ∧ c.color = false ∧ c.size = false ∧ c.markSize = some ⟨30000, 4⟩ ∧
+      (c.rows.filter fun r => Dict.hasKey r "color" && Dict.hasKey r "size").length = 2) ∧
+    (∃ c, altairChart a1Space a1Heap a1Portrayal' = .ok c ∧ c.size = true ∧ c.markSize = none ∧
+      (c.rows.filter fun r => !Dict.hasKey r "size").length = 2) := by
+  refine ⟨⟨_, rfl, ?_⟩, ⟨_, rfl, ?_⟩⟩ <;> decide
+
 /-! ## property layers -/
 
 /-- Orthogonal grids: the image handed to `imshow(origin="lower")` shows `data[x, y]` in column `x` of image
@@ -489,12 +781,24 @@ theorem C20_layer_image_orientation (L : Layer) (hw : L.wellFormed = true) {x y 
   obtain ⟨v, hv⟩ := Layer.at_isSome hw hx hy
   exact ⟨row, v, h1, by rw [h2, hv], hv⟩
 
-/-- Hex grids: the hexagon `_get_hexmesh` yields for column `x`, row `y` (number `y * w + x`, centred at
-    `hexCenter x y`, where the agents of that cell are drawn) is coloured with `data[x, y]`. -/
+/-- Hex grids: `_get_hexmesh` (`hexMesh`) yields one hexagon per cell, row by row; the hexagon number `y * w + x` is the
+    one centred at `hexCenter x y` — where the agents of cell `(x, y)` are drawn (`C20_hex_marker_at_hexagon_centre`) —, and
+    the colour with the same number (`hexColors`: `data.T.ravel()`, fix V8) is that of `data[x, y]`: the two lists that
+    `PolyCollection(hexagons, facecolors=…)` pairs up by position agree cell by cell, and there are as many of each as cells. -/
 theorem C20_layer_hex_orientation (L : Layer) (hw : L.wellFormed = true) {x y : Nat} (hx : x < L.w) (hy : y < L.h) :
+    (hexMesh L.w L.h).length = L.h * L.w ∧ (hexColors L).length = (hexMesh L.w L.h).length ∧
+    (hexMesh L.w L.h)[y * L.w + x]? = some (hexCenter x y) ∧
     ∃ v, (hexColors L)[y * L.w + x]? = some (some v) ∧ L.at x y = some v := by
   obtain ⟨v, hv⟩ := Layer.at_isSome hw hx hy
-  exact ⟨v, by rw [hexColors_getElem L hy hx, hv], hv⟩
+  refine ⟨hexMesh_length _ _, ?_, hexMesh_getElem L.w L.h hy hx, v, by rw [hexColors_getElem L hy hx, hv], hv⟩
+  rw [hexMesh_length]
+  unfold hexColors
+  generalize L.h = n
+  induction n with
+  | zero => simp
+  | succ n ih =>
+    rw [List.range_succ, List.flatMap_append, List.length_append, ih]
+    simp [Nat.succ_mul]
 
 /-- `data.ravel()`, what the code used before fix V8 -/
 def hexColorsRavel (L : Layer) : List (Option Int) :=
@@ -602,14 +906,14 @@ theorem C20_layers_drawn_are_the_requested_ones (fam : Family) (layers : List (S
 /-- `draw_space(space, agent_portrayal, propertylayer_portrayal, ax)` puts both on one Axes: the agents exactly as
     without layers (so `C20_draw_one_marker_per_agent` applies), then the layers exactly as `draw_property_layers`
     draws them; an empty request is skipped (on every class), a refused one raises after the agents are drawn. -/
-theorem C20_draw_space_with_layers {sp : Space} (h : Reachable sp) (heap : Heap) (p : Portrayal)
+theorem C20_draw_space_with_layers {sp : Space} (h : Reachable sp) (hr : drawRaises sp = none) (heap : Heap) (p : Portrayal)
     (layers : List (String × Layer)) (ports : List (String × LayerPortrayal)) :
     ∃ gs, drawSpace sp heap p = .ok gs ∧
       (ports = [] → drawSpaceFull sp heap p layers ports = .ok (gs, [])) ∧
       (ports ≠ [] → ∀ ds, drawLayers sp.fam layers ports = .ok ds → drawSpaceFull sp heap p layers ports = .ok (gs, ds)) ∧
       (ports ≠ [] → ∀ e, drawLayers sp.fam layers ports = .error e →
         drawSpaceFull sp heap p layers ports = .error (.layers e)) := by
-  obtain ⟨gs, hgs, _⟩ := C20_draw_one_marker_per_agent h heap p
+  obtain ⟨gs, hgs, _⟩ := (C20_draw_one_marker_per_agent h heap p).2.2 hr
   refine ⟨gs, hgs, fun he => ?_, fun hne ds hd => ?_, fun hne e hd => ?_⟩
   · unfold drawSpaceFull; rw [hgs, he]; rfl
   · have : ports.isEmpty = false := by cases ports <;> simp_all
@@ -633,13 +937,6 @@ theorem C20_layers_refused (fam : Family) (layers : List (String × Layer)) (nam
     simp only [Option.some.injEq, Prod.mk.injEq] at hr
     obtain ⟨rfl, rfl⟩ := hr
     cases hm : pt.mode <;> simp [hf, hlt]
-
-/-- V13: over a range without extent (a constant layer under the automatic range, or `vmin = vmax` given) every
-    cell is drawn at level 0 — a well-defined picture in all modes, not 0/0. -/
-theorem C20_V13_range_without_extent (alpha : Nat) (v m : Int) :
-    normLevel v m m = ⟨0, 1⟩ ∧ orthoShade alpha v m m = ⟨0, 1⟩ ∧ (hexShade alpha v m m).num = 0 ∧
-    (hexShade alpha v m m).den = 100 := by
-  simp [normLevel, orthoShade, hexShade]
 
 /-- Colour mode, orthogonal against hex grids: inside the range (and for `alpha ≤ 1`) both draw the cell at
     opacity `level · alpha`; they differ only in where they cut (`np.clip` of the product against `np.clip` of the
@@ -676,12 +973,6 @@ theorem C20_layer_color_modes_agree_in_range (alpha : Nat) (ha : alpha ≤ 100) 
 theorem C20_check_accepts_iff_binds_by_keyword (sig : List Param) (keys : List String) :
     checkModelParams sig keys = .ok () ↔ hasVarPositional sig = false ∧ bindsByKeyword sig keys :=
   checkModelParams_ok_iff sig keys
-
-/-- Constructors taking `*args` are refused whatever the parameters are. -/
-theorem C20_check_refuses_var_positional (sig : List Param) (keys : List String)
-    (h : ∃ p ∈ sig, p.kind = .varPos) : checkModelParams sig keys = .error .varPositional := by
-  unfold checkModelParams
-  rw [if_pos (hasVarPositional_iff.mpr h)]
 
 /-- The split into user-adjustable and fixed parameters loses and invents nothing, keeps the order inside
     each part, puts a parameter into the fixed part exactly when `check_param_is_fixed` says so, and — the
@@ -788,6 +1079,168 @@ theorem C20_input_change_keeps_the_parameter_set (sig : List Param) (params : Li
   obtain ⟨h1, h2⟩ := onChange_spec params name value h
   exact ⟨hk, h1, h2, by rw [hk]⟩
 
+/-! ## The controls of `SolaraViz`: Step, ▶ / ❚❚, Reset, the play loop, and the model a reset creates
+
+`Ctrl` is the state `ModelController` / `SimulatorController` and `ModelCreator` share (`Model/VizCtrl.lean`); a model class
+is a `Behaviour` (is the instance created with these arguments still `running` after its k-th step?) and every theorem
+holds for all of them. -/
+
+/-- The Step button is disabled exactly while playing or when the model has stopped; a click advances the model by
+    exactly `render_interval` steps (it does not stop early when the model stops in between), updates the display
+    once, leaves the model and its arguments in place, and the flag the buttons are drawn from is the model's
+    `running` after the last of these steps. -/
+theorem C20_ctrl_step_button (beh : Behaviour) (c : Ctrl) :
+    (c.apply beh .step = none ↔ (c.playing = true ∨ c.running = false)) ∧
+    (∀ c', c.apply beh .step = some c' →
+      c'.steps = c.steps + c.render ∧ c'.updates = c.updates + 1 ∧ c'.gen = c.gen ∧ c'.kwargs = c.kwargs ∧
+      c'.playing = false ∧ c'.params = c.params ∧
+      (0 < c.render → c'.running = beh c.kwargs (c.steps + c.render) ∧ c'.mrunning = c'.running)) := by
+  constructor
+  · simp only [Ctrl.apply]
+    cases c.playing <;> cases c.running <;> simp
+  · intro c' h
+    simp only [Ctrl.apply] at h
+    split at h
+    · exact absurd h (by simp)
+    · rename_i hc
+      have hp : c.playing = false := by cases hpl : c.playing <;> simp_all
+      injection h with h
+      subst h
+      obtain ⟨⟨a1, _, a3, a4, _, _, a7⟩, _, _, _, e5⟩ := stepLoop_spec beh false none c.render 1 c
+      obtain ⟨g1, g2⟩ := stepLoop_all beh false c.render 1 c (fun h => absurd h (by simp))
+      simp only [doStep, hp, Bool.false_eq_true, if_false]
+      refine ⟨g1, by rw [a7], a4, a3, g2.trans hp, a1, fun hr => ?_⟩
+      obtain ⟨f1, f2, _⟩ := e5 hr
+      rw [g1] at f2
+      exact ⟨f1.trans f2, f1.symm⟩
+
+/-- Over every history of clicks, slider moves, input changes and play loops (with whatever the user does during
+    them): the controller never goes back to an earlier model, and as long as no reset replaced the model its step
+    count never decreases and its constructor arguments stay what they were. -/
+theorem C20_ctrl_steps_never_go_back (beh : Behaviour) (c : Ctrl) (ops : List CtrlOp) :
+    c.gen ≤ (c.run beh ops).gen ∧
+    ((c.run beh ops).gen = c.gen → c.steps ≤ (c.run beh ops).steps ∧ (c.run beh ops).kwargs = c.kwargs) :=
+  run_before beh ops c
+
+/-- If `SolaraViz` renders (the inputs are supported and `ModelCreator`'s check accepts `model_params`), then after
+    every history of user actions the parameter set still has exactly the names `ModelCreator` handed on, every model
+    a reset has created was called with exactly these names, and the constructor binds them by keyword: no reset can
+    fail on its arguments, whatever the inputs were changed to. -/
+theorem C20_ctrl_every_reset_gets_the_whole_parameter_set (beh : Behaviour) (sig : List Param)
+    (ps : List (String × ParamVal)) (kw0 : Params) (r : Nat) (t : Bool) (c0 : Ctrl)
+    (h : Ctrl.init sig ps kw0 r t = .ok c0) (ops : List CtrlOp) :
+    (c0.run beh ops).params.map (·.1) = (initialParams ps).map (·.1) ∧
+    (0 < (c0.run beh ops).gen → (c0.run beh ops).kwargs.map (·.1) = (initialParams ps).map (·.1)) ∧
+    hasVarPositional sig = false ∧ bindsByKeyword sig ((c0.run beh ops).params.map (·.1)) := by
+  unfold Ctrl.init at h
+  cases hm : modelCreator sig ps with
+  | error e => rw [hm] at h; exact absurd h (by simp)
+  | ok res =>
+    obtain ⟨mp, ws⟩ := res
+    rw [hm] at h
+    injection h with h
+    have hacc := (C20_creator_accepts_iff_model_can_be_created sig ps).mp ⟨_, hm⟩
+    -- what `modelCreator` returned
+    have hmp : mp = initialParams ps ∧ userInputs (splitParams ps).1 = .ok ws := by
+      unfold modelCreator at hm
+      cases hu : userInputs (splitParams ps).1 with
+      | error t => rw [hu] at hm; exact absurd hm (by simp)
+      | ok ws' =>
+        rw [hu] at hm
+        simp only at hm
+        cases hc : creatorCheck sig (ps.map fun kv => (kv.1, kv.2.toPy)) with
+        | error e => rw [hc] at hm; exact absurd hm (by simp)
+        | ok u =>
+          rw [hc] at hm
+          simp only at hm
+          injection hm with hm
+          injection hm with h1 h2
+          exact ⟨h1.symm, by rw [h2]⟩
+    have hinv : c0.paramsInv ((initialParams ps).map (·.1)) := by
+      subst h
+      refine ⟨by rw [hmp.1], fun n hn => ?_, fun hg => absurd hg (Nat.lt_irrefl 0)⟩
+      simp only at hn
+      rw [(userInputs_ok _ ws hmp.2).1] at hn
+      rw [initialParams_keys]
+      exact List.mem_append_right _ hn
+    have hrun := run_paramsInv beh _ ops c0 hinv
+    refine ⟨hrun.1, hrun.2.2, hacc.2.1, ?_⟩
+    rw [hrun.1]
+    exact hacc.2.2
+
+/-- A reset after any sequence of input changes creates a fresh model (step 0, not playing, running) whose keyword
+    arguments are the whole parameter set — every name once — with, for each name, the value its input reported last,
+    and the value it had before for a name no input reported. -/
+theorem C20_ctrl_reset_uses_latest_inputs (beh : Behaviour) (c : Ctrl) (names : List String) (hi : c.paramsInv names)
+    (changes : List (String × Val)) (hin : ∀ ch ∈ changes, ch.1 ∈ c.inputs) :
+    let c' := c.run beh (changes.map (fun ch => CtrlOp.change ch.1 ch.2) ++ [.reset])
+    c'.gen = c.gen + 1 ∧ c'.steps = 0 ∧ c'.playing = false ∧ c'.running = true ∧ c'.mrunning = true ∧
+    c'.kwargs.map (·.1) = names ∧
+    ∀ name, c'.kwargs.lookup name = match lastChange changes name with
+      | some v => some (some v)
+      | none => c.params.lookup name :=
+  run_changes_reset beh names changes c hi hin
+
+/-- The play loop on a model that stops when it reaches step `S`, left alone for at least `m` ticks, where `m` is the
+    number of ticks that takes (`steps + render·(m−1) < S ≤ steps + render·m`): it makes exactly `m` ticks of
+    `render_interval` steps each — a tick is never cut short, so the model may be stepped up to `render_interval − 1`
+    steps past `S` —, then ends by itself with the run flag off (`playing` stays on, the ▶ / ❚❚ button is disabled),
+    having updated the display once per tick (never, while the threads option leaves that to the other thread). -/
+theorem C20_ctrl_play_runs_to_the_models_stop (beh : Behaviour) (S m n : Nat) (c : Ctrl)
+    (hbeh : ∀ j, beh c.kwargs j = decide (j < S)) (hp : c.playing = true) (hr : c.running = true)
+    (hm : 0 < m) (hmn : m ≤ n) (hlo : c.steps + c.render * (m - 1) < S) (hhi : S ≤ c.steps + c.render * m) :
+    let c' := playLoop beh (List.replicate n (Ev.idle, none)) c
+    c'.steps = c.steps + c.render * m ∧ S ≤ c'.steps ∧ c'.steps < S + c.render ∧
+    c'.running = false ∧ c'.mrunning = false ∧ c'.playing = true ∧ c'.gen = c.gen ∧
+    c'.updates = (if c.threads then c.updates else c.updates + m) := by
+  obtain ⟨k, rfl⟩ : ∃ k, m = k + 1 := ⟨m - 1, by omega⟩
+  simp only [Nat.add_sub_cancel] at hlo
+  obtain ⟨h1, h2, h3, h4, h5, _, h7⟩ := playLoop_idle_run beh S k n c hbeh hp hr hmn hlo hhi
+  have hmul : c.render * (k + 1) = c.render * k + c.render := Nat.mul_succ _ _
+  exact ⟨h1, by rw [h1]; exact hhi, by rw [h1]; omega, h2, h3, h4, h5, h7⟩
+
+/-- Pausing.  (a) A click on ❚❚ while the loop sleeps between two ticks: the loop still makes one whole tick of
+    `render_interval` steps (by then on the not-playing branch: one update), then ends.  (b) A click on ❚❚ during
+    the `j`-th step of a tick (the model still running up to there): the tick ends right after that step. -/
+theorem C20_ctrl_pause (beh : Behaviour) (c : Ctrl) (hp : c.playing = true) (hr : c.running = true) :
+    (∀ rest, let c' := playLoop beh ((Ev.pause, none) :: rest) c
+      c'.steps = c.steps + c.render ∧ c'.playing = false ∧ c'.updates = c.updates + 1 ∧ c'.gen = c.gen) ∧
+    (∀ j, 1 ≤ j → j ≤ c.render → (∀ k, 1 ≤ k → k < j → beh c.kwargs (c.steps + k) = true) →
+      (doStep beh (some j) c).steps = c.steps + j ∧ (doStep beh (some j) c).playing = false ∧
+      (doStep beh (some j) c).gen = c.gen) := by
+  constructor
+  · intro rest
+    have hf : (applyEv c .pause).playing = false ∧ (applyEv c .pause).steps = c.steps ∧ (applyEv c .pause).render = c.render ∧
+        (applyEv c .pause).updates = c.updates ∧ (applyEv c .pause).gen = c.gen := by
+      simp [applyEv, Ctrl.clickPlay, hr, hp]
+    simp only [playLoop, hp, hr, Bool.and_self, if_true]
+    generalize applyEv c Ev.pause = c1 at *
+    obtain ⟨f1, f2, f3, f4, f5⟩ := hf
+    obtain ⟨⟨_, _, _, a4, _, _, a7⟩, _⟩ := stepLoop_spec beh false none c1.render 1 c1
+    obtain ⟨g1, g2⟩ := stepLoop_all beh false c1.render 1 c1 (fun h => absurd h (by simp))
+    have hd : (doStep beh none c1).steps = c.steps + c.render ∧ (doStep beh none c1).playing = false ∧
+        (doStep beh none c1).updates = c.updates + 1 ∧ (doStep beh none c1).gen = c.gen := by
+      simp only [doStep, f1, Bool.false_eq_true, if_false]
+      exact ⟨by rw [g1, f2, f3], g2.trans f1, by rw [a7, f4], a4.trans f5⟩
+    rw [playLoop_not_running beh rest _ (by simp [hd.2.1])]
+    exact hd
+  · intro j h1 hj hb
+    have hk := stepLoop_hook beh j (j - 1) c.render 1 c (by omega) hp hr (by omega)
+      (fun k hk1 hk2 => hb k hk1 (by omega))
+    obtain ⟨⟨_, _, _, a4, _, _, _⟩, _⟩ := stepLoop_spec beh true (some j) c.render 1 c
+    simp only [doStep, hp, if_true]
+    split
+    · exact ⟨by rw [hk.1]; omega, hk.2, a4⟩
+    · exact ⟨by simp only; rw [hk.1]; omega, hk.2, a4⟩
+
+/-- As long as the threads checkbox is left alone, the flag the buttons are drawn from (`running`: Step and ▶ / ❚❚ are
+    disabled without it) is the model's own `running` after every history of user actions.  (Toggling the checkbox
+    mounts the controller anew with the flag on — `ctrlThreadsWitness` below: the buttons of a stopped model come back.) -/
+theorem C20_ctrl_running_flag_is_the_models (beh : Behaviour) (c : Ctrl) (ops : List CtrlOp)
+    (hops : ∀ op ∈ ops, op.isThreads = false) (h : c.running = c.mrunning) :
+    (c.run beh ops).running = (c.run beh ops).mrunning :=
+  run_flag beh ops c hops h
+
 /-! ## non-vacuity -/
 
 /-- a hex grid with three agents, two of them in one cell and sharing one portrayal dict -/
@@ -860,6 +1313,74 @@ example : modelCreator [⟨"self", .posOrKw, false⟩, ⟨"n", .posOrKw, false
 
 example : onChange (initialParams exParams) "k" "7" = [("fixed", some "3"), ("fd", some "dict"), ("n", some "5"), ("k", some "7")] := by
   decide
+
+-- measure plots: a dict request draws its measures in the dict's order with the dict's colours; a missing measure is a KeyError
+example : plotMeasure [("a", [1, 2]), ("b", [3, 4])] (.dict [("b", "red"), ("a", "blue")]) =
+    .ok ⟨[⟨some "b", some "red", [3, 4]⟩, ⟨some "a", some "blue", [1, 2]⟩], none, true⟩ := by decide
+example : plotMeasure [("a", [1, 2])] (.list ["a", "zz", "yy"]) = .error "zz" := by decide
+
+-- the limits: the 2 × 3 hex grid shows (-2, 6) × (-4, 11) in hex units, the agent in cell (1, 2) is drawn at (3, 6); a 3 × 2
+-- continuous space shows (-3/20, 63/20) × (-2/20, 42/20)
+example : frameOf exSpace = some ⟨1, -2, 6, -4, 11⟩ ∧ (⟨1, -2, 6, -4, 11⟩ : Frame).shows (transform .hexm ⟨1, 2⟩) := by decide
+example : frameOf { fam := .cs, w := 3, h := 2, cells := [], placed := [] } = some ⟨20, -3, 63, -2, 42⟩ := by decide
+
+-- a network whose nodes are labelled 7, 2, 5 (in graph order) drawn with the layout 2 ↦ (0,0), 7 ↦ (4,1): the agent on node 7 is
+-- drawn at (4,1) — the position under its label, not that of the first node —, the default size is (180/4)²; an agent on
+-- node 5, which the layout lacks, is a KeyError
+def exNet : Space :=
+  { fam := .net, w := 1, h := 1, cells := [⟨7, 0⟩, ⟨2, 0⟩, ⟨5, 0⟩], placed := [mkAgent .net 1 ⟨7, 0⟩, mkAgent .net 2 ⟨2, 0⟩] }
+def exLayout : Layout := [(2, ⟨0, 0⟩), (7, ⟨4, 1⟩)]
+
+example : (drawNetwork exNet [] (fun _ => none) exLayout).toOption.map (fun d => (d.groups.map (·.drawn.map (·.loc)), d.size)) =
+    some ([[⟨4, 1⟩, ⟨0, 0⟩]], .exact ⟨32400, 16⟩) := by decide
+
+example : drawNetwork { exNet with placed := exNet.placed ++ [mkAgent .net 3 ⟨5, 0⟩] } [] (fun _ => none) exLayout = .error (.key 5) := by
+  decide
+
+-- the controls: a model class that stops when it reaches its `stop` argument
+def exStopOf : String → Option Nat
+  | "3" => some 3 | "4" => some 4 | "5" => some 5 | "7" => some 7 | _ => none
+
+def exBeh : Behaviour := fun kw k => match kw.lookup "stop" with
+  | some (some v) => ((exStopOf v).map fun s => decide (k < s)).getD true
+  | _ => true
+
+def exCtrlSig : List Param := [⟨"self", .posOrKw, false⟩, ⟨"kw", .varKw, false⟩]
+
+/-- `SolaraViz(Model(stop=3), model_params={"stop": Slider(value=5), "n": 2}, render_interval=2)` -/
+def exCtrl : Ctrl :=
+  { params := [("n", some "2"), ("stop", some "5")], inputs := ["stop"], kwargs := [("stop", some "3")], render := 2 }
+
+example : Ctrl.init exCtrlSig [("stop", .slider false "Stop" "5"), ("n", .plain "2")] [("stop", some "3")] 2 false = .ok exCtrl := by
+  decide
+
+example : exCtrl.paramsInv ["n", "stop"] := ⟨rfl, by decide, fun h => absurd h (by decide)⟩
+
+-- Step twice: 4 steps, the model stopped at step 3 in the middle of the second click; both buttons are disabled now
+example : ((exCtrl.run exBeh [.step, .step]).steps, (exCtrl.run exBeh [.step, .step]).running,
+    (exCtrl.run exBeh [.step, .step]).apply exBeh .step, (exCtrl.run exBeh [.step, .step]).apply exBeh .play) =
+    (4, false, none, none) := by decide
+
+-- the input reports 7, then 4; Reset: the next model is created with n=2, stop=4; played from there it runs 2 ticks
+example : (exCtrl.run exBeh [.change "stop" "7", .change "stop" "4", .reset]).kwargs = [("n", some "2"), ("stop", some "4")] := by
+  decide
+
+example : let c := exCtrl.run exBeh [.change "stop" "7", .change "stop" "4", .reset, .play, .loop [(.idle, none), (.idle, none), (.idle, none)]]
+    (c.steps, c.running, c.playing, c.updates, c.gen) = (4, false, true, 2, 1) := by decide
+
+-- the hypothesis of `C20_ctrl_play_runs_to_the_models_stop` is met by this class: created with stop=4 it runs while steps < 4
+example : ∀ j, exBeh [("n", some "2"), ("stop", some "4")] j = decide (j < 4) := fun _ => rfl
+
+-- ❚❚ during the sleep: one more whole tick; ❚❚ during the first step of a tick: one step
+example : let c := exCtrl.run exBeh [.reset, .play, .loop [(.pause, none)]]
+    (c.steps, c.playing, c.updates) = (2, false, 1) := by decide
+example : let c := exCtrl.run exBeh [.reset, .play, .loop [(.idle, some 1)]]
+    (c.steps, c.playing) = (1, false) := by decide
+
+/-- the threads checkbox mounts the controller anew: the flag is on although the model has stopped -/
+def ctrlThreadsWitness : Ctrl := exCtrl.run exBeh [.step, .step, .threads true]
+example : (ctrlThreadsWitness.running, ctrlThreadsWitness.mrunning, (ctrlThreadsWitness.apply exBeh .step).isSome) =
+    (true, false, true) := by decide
 
 -- Altair: the encoding follows the first agent of `space.agents` (agent 2, cell (0,1)): its dict has a z-order only, so
 -- neither colour nor size is encoded and the marks get the default size 30000 / 2²; the tooltips are its other keys
